@@ -11,6 +11,6 @@ cs=[re.match(r'C\d+',c).group(0) for c in m.get('caught_by',[]) if re.match(r'C\
 print(' '.join(dict.fromkeys(cs)))")
   [ -z "$checks" ] && checks=$(python3 -c "import json;print(json.load(open('$d/meta.json'))['property'])")
   first=$(echo $checks | cut -d' ' -f1)
-  out=$(tools/seed_check.sh "$n" $first 2>&1 | grep -E "check=|PATCH" | tr '\n' ' ')
+  out=$(SEED_LOG=/tmp/seedchk/regress-$n.log tools/seed_check.sh "$n" $first 2>&1 | grep -E "check=|PATCH" | tr '\n' ' ')
   echo "$n: $out"
 done
